@@ -84,6 +84,19 @@ Record Inv (st : state) : Prop := {
   inv_next : 1 <= next_call st
 }.
 
+(* the scheduled tombstone collection (label LGc, relayItems.deleteTomb) of a state satisfying
+   [gcs_ok] meets a tombstone or nothing: there it is relayItems.Delete *)
+Lemma gc_is_delete : forall st t, Inv st -> mem_key t (gcs st) = true ->
+  items_delete_tomb (set_gcs st (remove_one t (gcs st))) t = fst (items_delete (set_gcs st (remove_one t (gcs st))) t).
+Proof.
+  intros st t HI Em. apply items_delete_tomb_eq. cbn [set_gcs items]. intros it Hl.
+  eapply (inv_gcs _ HI); [|exact Hl].
+  unfold mem_key in Em. apply existsb_exists in Em. destruct Em as [x [Hx Heq]]. apply key_eqb_ok in Heq. subst. exact Hx.
+Qed.
+
+Ltac gc_delete HI :=
+  match goal with E : mem_key ?t (gcs ?st) = true |- _ => rewrite (gc_is_delete st t HI E) in * end.
+
 (* ---------------------------------------------------------------- small facts *)
 
 Lemma b2z_nonneg : forall b, 0 <= b2z b. Proof. destruct b; cbn; lia. Qed.
@@ -697,8 +710,8 @@ Proof.
   apply Eff_noitems; [exact HI|reflexivity|reflexivity|reflexivity|reflexivity| | | | | | | ].
   - apply (inv_timers _ HI).
   - intro k0. apply pending_put_same. reflexivity.
-  - constructor.
-  - right. constructor.
+  - constructor; [apply plain_iok; apply plain_simple; [reflexivity|intros ? ?; discriminate]|constructor].
+  - right. constructor; [reflexivity|constructor].
   - intro c0. cbn. lia.
   - intros k0 X Hp. cbn [put_conn set_conns conns items]. rewrite getc_insert.
     cbn [csum hold_i]. destruct (k0 =? k) eqn:E.
@@ -708,6 +721,20 @@ Proof.
       rewrite (wrapU_eq_add _ _ (-1) Hp). f_equal. lia.
     + cbn [hold_i] in Hp. rewrite Z.eqb_sym, E in Hp. exact Hp.
   - cbn. lia.
+Qed.
+
+(* checkExchanges by the goroutine that decremented: only the connection state changes *)
+Lemma Eff_ICheck : forall cf st th k room st1 pushed, Inv st ->
+  exec cf st (ICheck k) room = (st1, pushed) -> Eff st th (ICheck k) st1 pushed.
+Proof.
+  intros cf st th k room st1 pushed HI H. cbn [exec] in H.
+  destruct (((c_state (get_conn st k) =? c_connectionStartClose) || (c_state (get_conn st k) =? c_connectionInboundClosed))
+            && (c_pending (get_conn st k) =? 0)); inversion H; subst.
+  - apply Eff_pure; try reflexivity; try exact HI; [apply (inv_timers _ HI)| |constructor].
+    intro k'. cbn [put_conn set_conns conns]. rewrite getc_insert.
+    destruct (k' =? k) eqn:E; [|split; reflexivity].
+    apply Z.eqb_eq in E. subst. cbn. rewrite get_conn_getc. split; reflexivity.
+  - apply Eff_pure; try reflexivity; try exact HI; [apply (inv_timers _ HI)|intro; apply conns_same; reflexivity|constructor].
 Qed.
 
 (* ---- instructions that change the item tables ---- *)
@@ -963,6 +990,7 @@ Proof.
   - eapply Eff_IAddOrig; eassumption.
   - cbn [exec] in H. inversion H. subst. apply Eff_ICb. exact HI.
   - eapply Eff_IDec; eassumption.
+  - eapply Eff_ICheck; eassumption.
   - eapply Eff_ISendErr; eassumption.
   - eapply Eff_IConnClose; eassumption.
   - eapply Eff_INcGet; eassumption.
@@ -1215,6 +1243,7 @@ Proof.
     assert (Hsub : forall x, In x (remove_one t (gcs st)) -> In x (gcs st)).
     { intro x. generalize (gcs st). intro l. induction l as [|y r IH]; cbn; [tauto|].
       destruct (key_eqb t y); [intro Hx; right; exact Hx|]. intros [Hx|Hx]; [left; exact Hx|right; apply IH; exact Hx]. }
+    rewrite items_delete_tomb_eq by (cbn [set_gcs items]; intros it0 Hl0; eapply (inv_gcs _ HI); eassumption).
     destruct (items_delete (set_gcs st (remove_one t (gcs st))) t) as [st' g] eqn:E. cbn [fst].
     pose proof (items_delete_timers (set_gcs st (remove_one t (gcs st))) _ _ _ (inv_timers _ HI) E) as Htm.
     apply items_delete_spec in E. cbn [set_gcs conns gcs threads cblog sent seen next_call items] in E.
